@@ -5,7 +5,7 @@
    Model/C20_Bookkeeping.v, about which the C20_*_bounded theorems are proved, keeps a key exactly
    when the transcribed "stale" condition is false. *)
 From Coq Require Import ZArith NArith List Bool.
-From Verif Require Import Lib.Base Lib.GoInt Gen.Pure_Extracted Model.C20_Bookkeeping Proofs.GenTie Proofs.GenTie3.
+From Verif Require Import Lib.Base Lib.GoInt Gen.Pure_C20 Model.C20_Bookkeeping Proofs.TieLib Proofs.Tie_C20.
 
 Theorem C20_tie_housekeep : forall (e : N) (l : list N), nu64 e ->
   housekeep true e l =
